@@ -205,6 +205,10 @@ pub fn svc_cfg(case: &Case) -> SvcCfg {
 }
 
 pub fn judge(rt: &tokio::runtime::Runtime, r: &mut Report, case: &Case) {
+    judge_with_session_check(r, |rep| judge_inner(rt, rep, case));
+}
+
+fn judge_inner(rt: &tokio::runtime::Runtime, r: &mut Report, case: &Case) {
     let mut req = case.req.clone();
     if case.route == "matching" {
         req.headers.push(("x-verif-route".into(), b"1".to_vec()));
@@ -482,7 +486,7 @@ pub fn run(ctx: &RunCtx) -> i32 {
     // POST forms (PostObject is not in the smithy model)
     let secrets = keys();
     let mut g = Rng::new(ctx.seed);
-    for i in 0..ctx.tier.sz(100, 6000) {
+    for i in 0..ctx.tier.sz(400, 6000) {
         let (mut form, _, policy) = c10::gen_form_for_key(&mut g, &secrets, AK);
         let _ = policy;
         let good_sig = form.get("x-amz-signature").unwrap_or("").to_owned();
